@@ -4,6 +4,8 @@ mod cmd_stages;
 mod cmd_fun2core;
 mod cmd_subst;
 mod cmd_rt;
+mod cmd_rvall;
+mod gen_rvmini;
 mod consts;
 mod gen_axlin;
 mod pipe;
@@ -93,6 +95,8 @@ fn main() {
             cmd_backend::cmd_codegen(which, num(2, 1), num(3, 0) as usize, &mut *out, &args[5.min(args.len())..]);
         }
         "c10-x86" => cmd_backend::cmd_c10("x86", num(2, 1), num(3, 0) as usize, &mut *out, &args[5.min(args.len())..]),
+        "codegen-all" => cmd_rvall::cmd_codegen_all(num(2, 1), num(3, 0) as usize, &mut *out, &args[5.min(args.len())..]),
+        "show-rvmini" => { use printer::Print; let mut r = Rng::new(num(2, 1)); for _ in 0..num(3, 1) { let p = gen_rvmini::program(&mut r.fork(), 14); println!("{}\n-- check: {:?}\n", p.print_to_string(None), gen_rvmini::check(&p)); } }
         "pm" => cmd_pm(num(2, 1), num(3, 100) as usize, &mut *out),
         "lin-show" => { cmd_lin::cmd_lin_show(num(2, 1)); return; }
         "lin" => cmd_lin::cmd_lin(num(2, 1), num(3, 100) as usize, &mut *out, args.get(5..).unwrap_or(&[])),
